@@ -164,8 +164,9 @@ def ChangeTypeNegatesFull : Prop :=
 
 /-- The full progress statement for `negate_constraints`. -/
 def NegateNegatesFull : Prop :=
-  ∀ (ctx : Ctx) (canNeg : Bool) (d d' : Dict) (cand : String) (en : List String) (fuel : Nat) (env : Env) (v : Json),
-    negateConstraints ctx canNeg d cand en = (.success, d') → env.oas = .none → Json.lookup "$ref" d = none →
+  ∀ (var : Variant) (ctx : Ctx) (canNeg : Bool) (d d' : Dict) (cand : String) (en : List String) (fuel : Nat)
+    (env : Env) (v : Json),
+    negateConstraints var ctx canNeg d cand en = (.success, d') → env.oas = .none → Json.lookup "$ref" d = none →
     DictFun d → validF (fuel + 2) env (.obj d') v = true → validF (fuel + 1) env (.obj d) v = false
 
 end SV.Spec.C02
